@@ -264,6 +264,11 @@ def kill_conds_on_assign(node, state):
             # idiom: an exception instance built for a deferred raise is a
             # truthy, non-None object
             out |= {("cond", "%s is None" % x, False), ("cond", x, True)}
+    if node.kind == "for" and isinstance(a.target, ast.Name) and isinstance(
+            a.iter, ast.Call) and isinstance(a.iter.func, ast.Name) and \
+            a.iter.func.id == "range":
+        # the loop variable of a range is an int (never None)
+        out.add(("cond", "%s is None" % a.target.id, False))
     if node.kind == "stmt" and isinstance(a, ast.AugAssign) and isinstance(
             a.target, ast.Name) and isinstance(
                 a.op, (ast.Add, ast.Sub, ast.Mult, ast.FloorDiv, ast.LShift,
